@@ -21,7 +21,7 @@ def run(chk):
     thorough = chk.tier == "thorough"
     rng = random.Random(vf.seed())
     binary = vf.go_build("ledger")
-    txs = ["T1", "T2", "T3", "T4", "T5", "T7"]
+    txs = ["T1", "T2", "T3", "T4", "T5", "T7", "T9"]
     if thorough:
         big = dict(txs=txs, blocks=3, tpb=2, bad=0, deliver=4)
         L.exhaustive(chk, "trees<=3 blocks, <=2 of 6 colliding templates per block, <=4 deliveries", **big)
@@ -30,7 +30,7 @@ def run(chk):
                      txs=txs, blocks=2, tpb=2, bad=0, deliver=3)
         L.exhaustive(chk, "trees<=3 blocks, <=1 of 6 colliding templates per block, <=4 deliveries",
                      txs=txs, blocks=3, tpb=1, bad=0, deliver=4)
-    small = dict(txs=["T1", "T2", "T3", "T4", "T5"], blocks=2, tpb=2, bad=0, deliver=3)
+    small = dict(txs=["T1", "T2", "T3", "T4", "T5", "T9"], blocks=2, tpb=2, bad=0, deliver=3)
     behs = L.extract_edges(chk, "2 blocks x <=2 txs", 8000 if thorough else 500, rng, **small)
     sim = L.simulate(chk, "5 blocks x <=2 txs", 3000 if thorough else 200, 12,
                      txs=txs + ["T6"], blocks=5, tpb=2, bad=0, deliver=6)
